@@ -316,6 +316,34 @@ def make_machine(ctx, big=False):
                 r, c = row % rows, col % cols
             self.step("write", d=d, s=s, t=t, row=r, col=c, value=gens.to_json(v))
 
+        @rule(d=st.integers(0, 9), s=st.integers(0, 9), t=st.integers(0, 9), k=st.integers(0, 10**6), how=st.integers(0, 2))
+        def overwrite(self, d, s, t, k, how):
+            """a second write to a cell that holds a value: the same value again, or a value of another type that Python's == equates
+            with the one held (True/1/1.0, False/0/0.0, 7/7.0) - the grid must then hold the value written last, type included"""
+            p = self.pick(d, s, t)
+            if p is None:
+                return
+            d, s, t = p
+            grid = self.ex.docs[d]["model"][s][1][t]["grid"]
+            held = [(r, c) for r, row in enumerate(grid) for c, v in enumerate(row) if v is not None][:400]
+            if not held:
+                self.step("write", d=d, s=s, t=t, row=0, col=0, value=gens.to_json([True, 1, 0, False][k % 4]))
+                return
+            r, c = held[k % len(held)]
+            v = grid[r][c]
+            if isinstance(v, bool):
+                new = [int(v), float(v), v][how]
+            elif isinstance(v, (int, float)) and v in (0, 1):
+                new = [bool(v), float(v) if isinstance(v, int) else int(v), v][how]
+            elif isinstance(v, int) and abs(v) < 10**15:
+                new = [float(v), v, v + 1][how]
+            elif isinstance(v, float) and v.is_integer() and abs(v) < 10**15:
+                new = [int(v), v, v][how]
+            else:
+                new = v
+            self.ex.flags.add("overwrite_equal_value_other_type" if (new == v and type(new) is not type(v)) else "overwrite")
+            self.step("write", d=d, s=s, t=t, row=r, col=c, value=gens.to_json(new))
+
         @rule(d=st.integers(0, 9), s=st.integers(0, 9), t=st.integers(0, 9), axis=st.sampled_from(["row", "column"]), count=st.integers(1, 3),
               start=st.none() | st.integers(0, 400), default=st.none() | small_values)
         def add(self, d, s, t, axis, count, start, default):
